@@ -167,7 +167,8 @@ def escape_check(R, oid, entry, allowed, what_entry, require_resolved=True, only
     R.touch(F)
     S = E.analyze(entry, fine=True)
     if require_resolved and S.unresolved:
-        raise AnalysisError(f'{oid}: unresolved internal call(s) in the region of {entry}: {sorted(S.unresolved)[:5]}')
+        R.defer(f'{oid}: unresolved internal call(s) in the region of {entry}: {sorted(S.unresolved)[:5]}')
+        return
     groups = {}
     for (exc, (line, last)), w in S.raises.items():
         if exc in NEVER_REPORTED:
@@ -795,4 +796,125 @@ def root_params(cx, node, expr, depth=0, seen=None):
                     out.add(s.expr.id)
                 else:
                     out |= root_params(s.ctx or cx, s.node, s.expr, depth + 1, seen)
+    return out
+
+
+def template_text(e, decide=None):
+    """a string-building expression as a template with `{expr}` holes: constants, f-strings, `+`, `'..{}..'.format(a, b)` (auto / indexed /
+    named fields), `'..%s..' % x`; a conditional between constants is chosen with `decide(test) -> bool` when given. None if not understood."""
+    if isinstance(e, ast.Constant) and isinstance(e.value, str):
+        return e.value
+    if isinstance(e, ast.JoinedStr):
+        out = ''
+        for v in e.values:
+            if isinstance(v, ast.Constant):
+                out += str(v.value)
+            elif isinstance(v, ast.FormattedValue) and v.format_spec is None and v.conversion == -1:
+                t = template_text(v.value, decide)
+                out += t if t is not None and isinstance(v.value, (ast.Constant, ast.IfExp, ast.JoinedStr)) else '{' + ast.unparse(v.value) + '}'
+            else:
+                return None
+        return out
+    if isinstance(e, ast.IfExp) and decide is not None:
+        d = decide(e.test)
+        if d is None:
+            return None
+        return template_text(e.body if d else e.orelse, decide)
+    if isinstance(e, ast.BinOp) and isinstance(e.op, ast.Add):
+        a, b = template_text(e.left, decide), template_text(e.right, decide)
+        if a is None and not isinstance(e.left, (ast.BinOp, ast.JoinedStr, ast.Constant, ast.IfExp, ast.Call)):
+            a = '{' + ast.unparse(e.left) + '}'
+        if b is None and not isinstance(e.right, (ast.BinOp, ast.JoinedStr, ast.Constant, ast.IfExp, ast.Call)):
+            b = '{' + ast.unparse(e.right) + '}'
+        return None if a is None or b is None else a + b
+    if isinstance(e, ast.Call) and isinstance(e.func, ast.Attribute) and e.func.attr == 'format' and isinstance(e.func.value, ast.Constant) \
+            and isinstance(e.func.value.value, str) and not any(isinstance(a, ast.Starred) for a in e.args) and all(k.arg for k in e.keywords):
+        import string
+        out, auto = '', 0
+        try:
+            for lit, field, spec, conv in string.Formatter().parse(e.func.value.value):
+                out += lit
+                if field is None:
+                    continue
+                if spec or conv:
+                    return None
+                if field == '':
+                    arg = e.args[auto]
+                    auto += 1
+                elif field.isdigit():
+                    arg = e.args[int(field)]
+                else:
+                    arg = {k.arg: k.value for k in e.keywords}[field]
+                t = template_text(arg, decide) if isinstance(arg, (ast.Constant, ast.IfExp, ast.JoinedStr)) else None
+                out += t if t is not None else '{' + ast.unparse(arg) + '}'
+        except (IndexError, KeyError, ValueError):
+            return None
+        return out
+    if isinstance(e, ast.BinOp) and isinstance(e.op, ast.Mod) and isinstance(e.left, ast.Constant) and isinstance(e.left.value, str):
+        args = list(e.right.elts) if isinstance(e.right, ast.Tuple) else [e.right]
+        parts = e.left.value.split('%s')
+        if len(parts) != len(args) + 1 or '%' in ''.join(parts):
+            return None
+        out = parts[0]
+        for a, p in zip(args, parts[1:]):
+            t = template_text(a, decide) if isinstance(a, (ast.Constant, ast.IfExp, ast.JoinedStr)) else None
+            out += (t if t is not None else '{' + ast.unparse(a) + '}') + p
+        return out
+    return None
+
+
+def path_texts(cx, node, exprs, limit=4000, atom=None):
+    """the values `exprs` (ast expressions) can have at CFG node `node`, each as text with every local replaced by what it was
+    bound to on that path, one tuple per distinct path history (paths are followed exhaustively; loops bind their target opaquely).
+    `x = f(a); y = x.name` read at a use of y gives `f(a).name`."""
+    import copy
+
+    class Sub(ast.NodeTransformer):
+        def __init__(self, env):
+            self.env = env
+
+        def visit_Name(self, n):
+            if isinstance(n.ctx, ast.Load) and n.id in self.env:
+                return ast.parse(self.env[n.id], mode='eval').body
+            return n
+
+        def visit_Lambda(self, n):
+            return n
+        visit_ListComp = visit_SetComp = visit_DictComp = visit_GeneratorExp = visit_Lambda
+
+    def text(e, env):
+        return ast.unparse(Sub(env).visit(copy.deepcopy(e)))
+
+    def transfer(n, stt):
+        env = dict(stt)
+        if n.kind == 'stmt' and isinstance(n.ast, (ast.Assign, ast.AnnAssign)) and getattr(n.ast, 'value', None) is not None:
+            tgts = n.ast.targets if isinstance(n.ast, ast.Assign) else [n.ast.target]
+            v = n.ast.value
+            for t in tgts:
+                if isinstance(t, ast.Name):
+                    new = text(v, env)
+                    env[t.id] = new if len(new) < 400 else f'<{t.id}>'
+                elif isinstance(t, (ast.Tuple, ast.List)) and isinstance(v, (ast.Tuple, ast.List)) and len(t.elts) == len(v.elts):
+                    news = [text(x, env) for x in v.elts]
+                    for tt, nn in zip(t.elts, news):
+                        if isinstance(tt, ast.Name):
+                            env[tt.id] = nn if len(nn) < 400 else f'<{tt.id}>'
+                else:
+                    for x in ast.walk(t):
+                        if isinstance(x, ast.Name) and isinstance(x.ctx, ast.Store):
+                            env.pop(x.id, None)
+        elif n.kind == 'stmt' and isinstance(n.ast, ast.AugAssign) and isinstance(n.ast.target, ast.Name):
+            env.pop(n.ast.target.id, None)
+        elif n.kind in ('for', 'with', 'handler'):
+            for (nm, _) in cx.cfg.defs_of(n):
+                env.pop(nm, None)
+        return tuple(sorted(env.items()))
+    reached = explore_sym(cx, (lambda e, st: atom(e)) if atom else (lambda e, st: None), transfer, ())
+    out = set()
+    for (nid, stt) in reached:
+        if nid == node.id:
+            env = dict(stt)
+            out.add(tuple(text(e, env) for e in exprs))
+            if len(out) > limit:
+                raise AnalysisError(f'{cx.qual}: too many path histories')
     return out
